@@ -99,7 +99,7 @@ class ArmV6:
             result = set_substring(result, 5, 2, 0b0001)
             result = set_substring(result, 1, 0, substring(level, 1, 0))
         elif dtype == DAbort.SYNC_EXTERNAL:
-            result = 0b100000
+            result = 0b010000
         elif dtype == DAbort.SYNC_EXTERNAL_ON_WALK:
             result = set_substring(result, 5, 2, 0b0101)
             result = set_substring(result, 1, 0, substring(level, 1, 0))
